@@ -51,7 +51,31 @@ class Models:
             if fn:
                 ex.models_used.add(k)
                 return fn(ex, c, args)
+        imp = impure_primitive(c.text)
+        if imp:
+            ex.notes.setdefault('impure', []).append(f'{imp}: {c.text[:160]}')
+            raise Unsupported(f'IMPURE primitive reached ({imp}): `{c.text[:200]}`')
         raise Unsupported(f'no body and no model for callee `{c.text}` (keys {self.key_candidates(c)})')
+
+
+IMPURE_PATTERNS = [
+    (r'\bstd::env::|\benv::var', 'process environment'),
+    (r'\bstd::time::|\bInstant::now|\bSystemTime::', 'clock'),
+    (r'\bstd::fs::|\bFile::', 'file system'),
+    (r'\bAtomic(Bool|Usize|U\d+|I\d+|Isize|Ptr)\b.*::(load|store|swap|fetch_\w+|compare_exchange\w*)', 'atomic in a static (state shared between invocations)'),
+    (r'\bLocalKey\b|thread_local', 'thread-local state'),
+    (r'\b(OnceLock|OnceCell|LazyLock|Mutex|RwLock)\b', 'lazily initialised / locked shared state'),
+    (r'\bRandomState\b|\brandom\b', 'randomness'),
+    (r'\bHash(Map|Set)<.*>::(iter|iter_mut|into_iter|keys|values|values_mut|into_values|into_keys|drain)\b|hash_(map|set)::\w*(Iter|Values|Keys|Drain)', 'iteration over a hash-ordered collection'),
+    (r'\bprocess::id|\bthread::current', 'process / thread identity'),
+]
+
+
+def impure_primitive(text):
+    for rx, what in IMPURE_PATTERNS:
+        if re.search(rx, text):
+            return what
+    return None
 
 
 def deref(v):
